@@ -520,7 +520,7 @@ def run_case(case, M, tier="quick"):
         else:
             scriptw.append([Sym("merge"), wire.prog(a[1]), [k for k, S in enumerate(nts) if S[0] == a[2]]])
     import inspect
-    fixed = "len(bank[cost_index]) == 0" in inspect.getsource(BeapSearch._query_list_)     # fix C12-F6 applied?
+    fixed = "len(bank[cost_index]) == 0" in inspect.getsource(BeapSearch._query_list_)     # fix C12-F13 applied?
     out["fixed_emptied"] = fixed
     ans = M.ask([Sym("beap.run"), gw, recursive_flag, [wire.prog(p) for p in rejected], scriptw, FUEL, fixed])
     if ans[0] == "undef":
@@ -661,8 +661,8 @@ def float_run(g, probs, take):
 def finding_of(case, r, pid):
     """decidable classifiers of the open findings of this part (functions of the case and of which
     _query_list_ the implementation has — never of the enumerator's output).
-    C12-F5 / C12-F6: the script declares at least one merge (merge_program after the enumeration has started);
-    C12-F6 (programs lost) only while the fix is not applied."""
+    C12-F12 / C12-F13: the script declares at least one merge (merge_program after the enumeration has started);
+    C12-F13 (programs lost) only while the fix is not applied."""
     if pid == "C12" and case.get("merges"):
-        return {"contains": "C12-F5", "lost": None if r.get("fixed_emptied") else "C12-F6", "other": "C12-F5"}
+        return {"contains": "C12-F12", "lost": None if r.get("fixed_emptied") else "C12-F13", "other": "C12-F12"}
     return None
